@@ -407,6 +407,8 @@ type CallSpec struct {
 	NoScriptKey                             bool
 	// CtxHook decorates the caller context (C17).
 	CtxHook func(context.Context) context.Context
+	// PreCancel cancels the RPC's context before the RPC is started.
+	PreCancel bool
 }
 
 func methodDesc(m string) (full string, sd *grpc.StreamDesc) {
@@ -440,6 +442,9 @@ func (w *World) RunCall(conn grpc.ClientConnInterface, spec *CallSpec) {
 	}
 	defer cancel()
 	w.registerCancel(spec.ID, cancel)
+	if spec.PreCancel {
+		cancel()
+	}
 	if spec.CtxHook != nil {
 		ctx = spec.CtxHook(ctx)
 	}
